@@ -11,19 +11,20 @@ prop(
     needs_race_bin=True,
     stages=[
         dict(run="^TestPropPermutations$",
-             quick=dict(checks=320, shards=8, timeout=600),
+             quick=dict(checks=256, shards=8, timeout=600),
              thorough=dict(checks=5120, shards=16, timeout=5400)),
         dict(run="^TestPropWorkers$",
-             quick=dict(checks=48, shards=4, timeout=600),
+             quick=dict(checks=40, shards=4, timeout=600),
              thorough=dict(checks=608, shards=8, timeout=5400)),
         dict(run="^TestPropRace$",
-             quick=dict(checks=48, shards=4, timeout=900),
+             quick=dict(checks=40, shards=4, timeout=900),
              thorough=dict(checks=304, shards=8, timeout=7200)),
     ],
     rule="layer 1: one evaluation = one arrival order (30 per input quick, 200 thorough; serial order is canonical, the reverse "
          "order is always included) of the real report stream produced by pint's checks on a generated input (2-5 rule files "
          "sharing pooled rules so that Dedup has work, symlinks, parse failures, 0-8 group-level labels per group, per-rule `team` "
-         "labels checked against {{ $alert }}, >= 2 rule{} blocks with custom severities plus same-check severity ladders); "
+         "labels checked against {{ $alert }}, >= 2 rule{} blocks with custom severities plus same-check severity ladders, `check 'promql/regexp' { smelly }` / `check 'promql/series'` "
+         "settings blocks and smelly regexp selectors); "
          "layers 2/3: one evaluation = one invocation of the (race-instrumented) binary with --workers in {1,2,3,7,16,64} x "
          "GOMAXPROCS in {1,2,16} (6 settings per input quick, all 18 thorough; (1,1) is canonical), a third of the inputs online "
          "against a fake Prometheus (1-2 servers), a third with an extra 50-200 rule group so that workers really overlap. Non-trivial: >= 8 reports, >= 2 files with reports, >= 1 duplicate group, >= 2 reports with "
